@@ -66,12 +66,16 @@ where
     self.observer.error(err);
     self.status.flag.store(-1, Ordering::Relaxed);
     self.status.waker.wake();
+    #[cfg(feature = "verif_hooks")]
+    crate::verif::yield_point("status_wake");
   }
 
   fn complete(self) {
     self.observer.complete();
     self.status.flag.store(1, Ordering::Relaxed);
     self.status.waker.wake();
+    #[cfg(feature = "verif_hooks")]
+    crate::verif::yield_point("status_wake");
   }
 
   #[inline]
@@ -121,6 +125,8 @@ impl Future for StatusFuture {
       if self.0.is_closed() {
         return Poll::Ready(NormalReturn::new(()));
       }
+      #[cfg(feature = "verif_hooks")]
+      crate::verif::yield_point("status_park");
       Poll::Pending
     }
   }
